@@ -36,7 +36,10 @@ class OsuNoteMeta:
         Returns:
             The actual column value, starting from 0
         """
-        return max(min(int(x_axis // (512 / keys)), keys - 1), 0)
+        # floor(x * keys / 512); dividing by the float column width (512 / keys)
+        # first puts x on an exact column boundary into the column before it
+        # for key counts that do not divide 512 (e.g. x=256, 10K -> 4, not 5).
+        return max(min(int(x_axis * keys // 512), keys - 1), 0)
 
     @staticmethod
     def column_to_x_axis(column: float, keys: int) -> int:
